@@ -77,7 +77,7 @@ Definition bins_case (s : side) (n : nat) (l : list Z) : bool :=
 
 
 # ----------------------------------------------------------------------------- implementation runs
-def make_object(cplx, nfft, vec, cls='Spectrum', sampling=1.0):
+def make_object(cplx, nfft, vec, cls='Spectrum', sampling=1.0, intpsd=False):
     """an object of the requested datatype with a directly assigned psd"""
     from spectrum.psd import Spectrum, FourierSpectrum
     N = max(nfft, 4)
@@ -88,7 +88,10 @@ def make_object(cplx, nfft, vec, cls='Spectrum', sampling=1.0):
         p = FourierSpectrum(data, sampling=sampling, NFFT=nfft)
     else:
         p = Spectrum(data, sampling=sampling, NFFT=nfft)
-    p.psd = np.array(vec, dtype=float) if not np.iscomplexobj(vec) else np.array(vec)
+    if intpsd and not np.iscomplexobj(vec):
+        p.psd = [int(t) for t in vec] if intpsd == 'list' else np.array(vec, dtype=np.int64)      # integer-valued PSD stored as given
+    else:
+        p.psd = np.array(vec, dtype=float) if not np.iscomplexobj(vec) else np.array(vec)
     return p
 
 
@@ -185,11 +188,11 @@ def conf(cplx, nfft):
     return '%s/%s' % ('complex' if cplx else 'real', 'even' if nfft % 2 == 0 else 'odd')
 
 
-def check_object(cplx, nfft, vec, path, cls='Spectrum', sampling=1.0, queries=True, obj=None, s0=None):
+def check_object(cplx, nfft, vec, path, cls='Spectrum', sampling=1.0, queries=True, obj=None, s0=None, intpsd=False):
     """run one path on the implementation and test every clause of C06 with the frequency-matching oracle.
     returns (failures [(key, what)], final) with final = None (raised) or (sides, NFFT, psd copy)"""
     bad = []
-    p = obj if obj is not None else make_object(cplx, nfft, vec, cls, sampling)
+    p = obj if obj is not None else make_object(cplx, nfft, vec, cls, sampling, intpsd)
     c = conf(cplx, nfft)
     s0 = s0 or p.sides
     v0 = np.array(stored(p), copy=True)
@@ -344,7 +347,7 @@ def helper_inverse_failures(n):
 def replay(rep):
     r = rep['replay']
     if r.get('site') == 'object':
-        bad, _ = check_object(r['cplx'], r['nfft'], vlib.unhexv(r['psd']), r['path'], r.get('cls', 'Spectrum'), r.get('sampling', 1.0))
+        bad, _ = check_object(r['cplx'], r['nfft'], vlib.unhexv(r['psd']), r['path'], r.get('cls', 'Spectrum'), r.get('sampling', 1.0), intpsd=r.get('intpsd', False))
         return not bad
     if r.get('site') == 'tools':
         return not check_helper(r['helper'], vlib.unhexv(r['x']))
@@ -474,8 +477,9 @@ def run(ctx):
         pool = SIDES[1:] if (cplx and rng.integers(0, 4) > 0) else SIDES
         path = [pool[int(t)] for t in rng.integers(0, len(pool), size=ln)]
         cls = classes[it % 2]; sampling = samplings[it % 3]
-        bad, fin = check_object(cplx, nfft, v, path, cls, sampling)
-        report(bad, {'site': 'object', 'cls': cls, 'cplx': cplx, 'nfft': nfft, 'sampling': sampling, 'psd': vlib.hexv(v), 'path': path})
+        intpsd = [False, False, 'array', 'list'][it % 4]
+        bad, fin = check_object(cplx, nfft, v, path, cls, sampling, intpsd=intpsd)
+        report(bad, {'site': 'object', 'cls': cls, 'cplx': cplx, 'nfft': nfft, 'sampling': sampling, 'psd': vlib.hexv(v), 'path': path, 'intpsd': intpsd})
         e = 'None' if fin is None else 'Some (%s, %d%%nat, %s)' % (SC[fin[0]], fin[1], czl(fin[2]))
         cases.append('dense_case %s %d%%nat %s %s (%s)' % ('true' if cplx else 'false', nfft, path_lit(path), czl(v), e))
         meta.append({'site': 'object', 'cls': cls, 'cplx': cplx, 'nfft': nfft, 'path': path, 'psd': vlib.hexv(v)})
